@@ -124,7 +124,9 @@ func treeHash() string {
 			return nil
 		})
 	}
-	add(repoDir, func(p string) bool { return strings.HasPrefix(p, repoDir+"/docs") || strings.HasPrefix(p, repoDir+"/test/e2e") })
+	add(repoDir, func(p string) bool {
+		return strings.HasPrefix(p, repoDir+"/docs") || strings.HasPrefix(p, repoDir+"/test/e2e")
+	})
 	add(verifDir, func(p string) bool {
 		return strings.HasPrefix(p, verifDir+"/evidence") || strings.HasPrefix(p, verifDir+"/replays") || strings.HasPrefix(p, verifDir+"/seeded") || strings.HasPrefix(p, verifDir+"/bin")
 	})
@@ -273,7 +275,7 @@ func runBatch(bin, prop, tier string, seed uint64, faults bool, runs int, budget
 					args = append(args, "-faults")
 				}
 				cmd := exec.Command(bin, args...)
-				cmd.Env = append(os.Environ(), "GOMAXPROCS=2")
+				cmd.Env = append(os.Environ(), "GOMAXPROCS=2", "TMPDIR="+scratch)
 				cmd.Stderr = io.Discard
 				cmd.Stdout = io.Discard
 				done := make(chan error, 1)
@@ -413,7 +415,11 @@ func main() {
 		os.Exit(doReplay(bin, prop, *replay, known))
 	}
 
-	scratch, err := os.MkdirTemp("", "verif-run-*")
+	scratchRoot := ""
+	if st, err := os.Stat("/dev/shm"); err == nil && st.IsDir() {
+		scratchRoot = "/dev/shm" // tmpfs: the simulated disk's scratch directories live here
+	}
+	scratch, err := os.MkdirTemp(scratchRoot, "verif-run-*")
 	if err != nil {
 		die(2, "%v", err)
 	}
@@ -447,20 +453,20 @@ func main() {
 
 	// ---- aggregate
 	type agg struct {
-		runs, ops                        int
-		faults, probes, checks, extra    map[string]int
-		states                           map[uint64]bool
-		nontrivStates                    map[uint64]bool
-		simS                             float64
-		samples                          []json.RawMessage
-		sigFirst                         map[string]*runResult
-		sigBatch                         map[string]*batch
-		sigCount                         map[string]int
-		sigViol                          map[string]violation
-		digests                          map[string]bool
-		hangs, errors                    int
-		errSamples                       []string
-		hangReplays                      []json.RawMessage
+		runs, ops                     int
+		faults, probes, checks, extra map[string]int
+		states                        map[uint64]bool
+		nontrivStates                 map[uint64]bool
+		simS                          float64
+		samples                       []json.RawMessage
+		sigFirst                      map[string]*runResult
+		sigBatch                      map[string]*batch
+		sigCount                      map[string]int
+		sigViol                       map[string]violation
+		digests                       map[string]bool
+		hangs, errors                 int
+		errSamples                    []string
+		hangReplays                   []json.RawMessage
 	}
 	a := &agg{faults: map[string]int{}, probes: map[string]int{}, checks: map[string]int{}, extra: map[string]int{},
 		states: map[uint64]bool{}, nontrivStates: map[uint64]bool{}, sigFirst: map[string]*runResult{}, sigBatch: map[string]*batch{},
@@ -536,6 +542,7 @@ func main() {
 	}
 	sort.Strings(sigs)
 	var knownHit []string
+	minimised := 0
 	for _, sig := range sigs {
 		r := a.sigFirst[sig]
 		b := a.sigBatch[sig]
@@ -563,10 +570,13 @@ func main() {
 			die(2, "%v", err)
 		}
 		// minimise (same process class, new process)
-		mcmd := exec.Command(bin, "-minimise", path, "-o", path, "-budget", "90s")
-		mcmd.Stderr = io.Discard
-		mcmd.Stdout = io.Discard
-		mcmd.Run()
+		if minimised < 4 {
+			minimised++
+			mcmd := exec.Command(bin, "-minimise", path, "-o", path, "-budget", "45s")
+			mcmd.Stderr = io.Discard
+			mcmd.Stdout = io.Discard
+			mcmd.Run()
+		}
 		// re-verify in a fresh process
 		rc, out := replayOnce(bin, path)
 		switch rc {
@@ -611,29 +621,29 @@ func main() {
 	wall := time.Since(start).Seconds()
 	real, stub := components(bin)
 	cov := map[string]any{
-		"evaluations":         a.runs,
-		"distinct_nontrivial": len(a.nontrivStates),
-		"rule":                pc.Rule,
-		"samples":             a.samples,
-		"operations":          a.ops,
-		"runs_per_hour":       int(float64(a.runs) / runWall * 3600),
-		"seeds":               a.runs,
-		"base_seed":           seed,
-		"simulated_seconds":   a.simS,
-		"faults_fired":        a.faults,
-		"probes":              a.probes,
+		"evaluations":               a.runs,
+		"distinct_nontrivial":       len(a.nontrivStates),
+		"rule":                      pc.Rule,
+		"samples":                   a.samples,
+		"operations":                a.ops,
+		"runs_per_hour":             int(float64(a.runs) / runWall * 3600),
+		"seeds":                     a.runs,
+		"base_seed":                 seed,
+		"simulated_seconds":         a.simS,
+		"faults_fired":              a.faults,
+		"probes":                    a.probes,
 		"oracle_clause_evaluations": a.checks,
-		"distinct_states":     len(a.states),
-		"distinct_run_digests": len(a.digests),
-		"extra":               a.extra,
-		"components_real":     real,
-		"components_stub":     stub,
-		"fault_batches":       modes,
-		"known_findings_hit":  knownHit,
-		"hangs":               a.hangs,
-		"harness_errors":      a.errors,
-		"workers":             runtime.NumCPU(),
-		"run_phase_wall_s":    runWall,
+		"distinct_states":           len(a.states),
+		"distinct_run_digests":      len(a.digests),
+		"extra":                     a.extra,
+		"components_real":           real,
+		"components_stub":           stub,
+		"fault_batches":             modes,
+		"known_findings_hit":        knownHit,
+		"hangs":                     a.hangs,
+		"harness_errors":            a.errors,
+		"workers":                   runtime.NumCPU(),
+		"run_phase_wall_s":          runWall,
 	}
 	ev := map[string]any{
 		"property_id": prop,
